@@ -41,11 +41,35 @@ def z80_finder(pid, failure, repo, seed):
         shutil.rmtree(scratch, ignore_errors=True)
 
 
-FINDERS = {"z80": z80_finder}
+def contention_finder(pid, failure, repo, seed):
+    """exhaustive native comparison of contention_clocks with the statement's delay function"""
+    import re, shutil
+    scratch = os.path.join(os.environ.get("VERIF_SCRATCH", "/var/tmp"), "vp-replay-%s-%d" % (pid, os.getpid()))
+    try:
+        r = subprocess.run([sys.executable, os.path.join(VERIF, "kani", "inject.py"), scratch, "--repo", repo,
+                            "--no-lock-bump"], capture_output=True, text=True)
+        if r.returncode != 0:
+            return None
+        cmd = ["cargo", "run", "--offline", "--release", "-q", "-p", "rustzx-core", "--example", "verif_contention"]
+        p = subprocess.run(cmd, cwd=scratch, env=dict(os.environ, CARGO_NET_OFFLINE="true"), capture_output=True, text=True, timeout=900)
+        m = re.search(r"^MISMATCH .*$", p.stdout, re.M)
+        if not m:
+            return None
+        return dict(kind="contention", record=m.group(0),
+                    replay_cmd="python3 %s/kani/inject.py /var/tmp/vp-replay-c04 --no-lock-bump >/dev/null && cd /var/tmp/vp-replay-c04 && "
+                               "cargo run --offline --release -q -p rustzx-core --example verif_contention; rc=$?; rm -rf /var/tmp/vp-replay-c04; test $rc -eq 0" % VERIF)
+    finally:
+        shutil.rmtree(scratch, ignore_errors=True)
+
+
+FINDERS = {"z80": z80_finder, "contention": contention_finder}
+VERUS_FINDERS = {("ctl", "contention_clocks"): "contention"}
 
 
 def find_input(pid, failure, repo, seed):
     finder = failure.get("finder")
+    if not finder and failure.get("engine") == "verus":
+        finder = VERUS_FINDERS.get((failure.get("unit"), failure.get("function")))
     if not finder:
         return None
     if isinstance(finder, str):
